@@ -1,6 +1,7 @@
 package main
 
 import (
+	"strings"
 	"fmt"
 
 	"github.com/bluenviron/gomavlib/v3/pkg/frame"
@@ -69,6 +70,25 @@ func genC20(r *rngT, n int, tier string) {
 			execOp(fmt.Sprintf("tlogr - %s %s", encStream(bytesItems(log[:cut])), []string{"one", "1", "7"}[cut%3]))
 			stat("c20-cut")
 		}
+	}
+	// --- writer: several entries through one writer, refusals in between (what a refused entry leaves behind shows later)
+	for i := 0; i < n/3+2; i++ {
+		var its []string
+		for k := 0; k < 2+r.Intn(5); k++ {
+			var f frame.Frame
+			switch r.Intn(4) {
+			case 0:
+				f = &frame.V1Frame{SequenceNumber: r.byte(), Message: &message.MessageRaw{ID: 256 + uint32(r.Intn(1000)), Payload: r.payload(r.Intn(10))}}
+			case 1:
+				f = &frame.V2Frame{SequenceNumber: r.byte(), SystemID: r.byte(), Message: randValue(r, pickMsg(r, "common"))}
+			default:
+				f = randRawFrame(r, 1+r.Intn(2), r.bool())
+			}
+			its = append(its, fmt.Sprintf("%d@%s", r.epoch(), encFrame(f)))
+		}
+		dn := []string{"-@common", "common"}[r.Intn(2)]
+		execOp(fmt.Sprintf("tlogws %s %s", dn, strings.Join(its, ";")))
+		stat("c20-multi-entry")
 	}
 	// times around 1970 at every sub-second position (reader side: arbitrary 8-byte timestamps)
 	for _, ep := range edgeEpochs {
